@@ -86,14 +86,14 @@ func c19CheckReq(c c19ReqCase, o *vt.Obs) error {
 		tx := txs[i]
 		s.testHandleMessage(t, nil, CMDTX, tx)
 		ok := false
-		for w := 0; w < 300; w++ {
+		for w := 0; w < 2000; w++ {
 			if ok = reached(tx); ok {
 				break
 			}
 			time.Sleep(10 * time.Millisecond)
 		}
 		if !ok {
-			return fmt.Errorf("requested transaction #%d of %d (position %d of the requested list, arrival order %v, the caller %s) has not reached the consensus service within 3 s of its arrival",
+			return fmt.Errorf("requested transaction #%d of %d (position %d of the requested list, arrival order %v, the caller %s) has not reached the consensus service within 20 s of its arrival",
 				k+1, c.N, slices.Index(c.Order, i), c.Arrive, []string{"keeps its list", "deletes arrived entries from its list in place", "zeroes arrived entries of its list"}[c.Caller])
 		}
 		if j := slices.Index(missing, tx.Hash()); j >= 0 {
